@@ -177,6 +177,16 @@ def verify(contract, scratch, tucache, bounded=0, bcase=None):
                 stmts = stmts_all[start:]
                 if getattr(contract, 'slice_count', None):
                     stmts = stmts[:contract.slice_count]       # the declaration and the statements right after it
+                if getattr(contract, 'slice_until', None):
+                    # ... up to (not including) the top-level declaration of another variable
+                    end = None
+                    for j_, s_ in enumerate(stmts):
+                        if s_.get('kind') == 'DeclStmt' and any(c.get('name') == contract.slice_until for c in s_.get('inner', [])):
+                            end = j_
+                            break
+                    if end is None:
+                        raise ExtractionError(f'{contract.name}: slice end marker "{contract.slice_until}" not found')
+                    stmts = stmts[:end]
             # everything declared before the range is an input of the slice
             declared_before = {}
             for s_ in stmts_all[:start]:
